@@ -329,6 +329,7 @@ impl Clone for Tracked {
     }
 }
 
+#[cfg(not(feature = "pod_payload"))]
 impl Drop for Tracked {
     fn drop(&mut self) {
         let _nc = crate::mem::NoCount::new();
